@@ -3,7 +3,9 @@
 //! Per case (schema SDL × configuration × operation document): the REAL operation declaration text and the REAL
 //! schema declaration text are parsed (`nvh::tsparse`); the operation file is linked with the schema file through
 //! its `import type * as Schema from …`.
-//! K: the parsed `<Op>Variables` alias = the Lean model `VarTypes.varsTs` (tree for tree).
+//! K: the parsed `<Op>Variables` alias = the Lean model `VarTypes.varsTs` (tree for tree); and
+//!    `Schema.__OperationInput.<Scalar>` of the real schema file = the operation-input text of the model's scalar
+//!    table `DeclCfg.scalarTypes` (configuration entry / built-in first, `@nitrogql_ts_type` directive second).
 //! O: on the finite abstract value domain (records of variables: exact, one variable dropped / extra / wrong, the
 //!    same inside input-object values, bare items for lists, omitted nullable keys) membership in the REAL
 //!    `<Op>Variables` type read with the real `__OperationInput` namespace (`ts.table`) is compared with the
@@ -94,6 +96,34 @@ fn corpus() -> Vec<Case> {
         model: None,
         model_sdl: None,
     });
+    // the two sources of a scalar's TypeScript type (schema directive × configuration entry): where the directive is
+    // written × what the configuration says about the same scalar
+    let directive = "@nitrogql_ts_type(resolverInput: \"Date\", resolverOutput: \"Date\", operationInput: \"Date | number\", operationOutput: \"number\")";
+    let rest = "input Span { from: Stamp! to: Stamp all: [Stamp!] }\ntype Query { q(s: Span, t: Stamp): Int }\n";
+    let placements = [
+        ("definition", format!("scalar Stamp {directive}\n{rest}")),
+        ("extend-after", format!("scalar Stamp\n{rest}extend scalar Stamp {directive}\n")),
+        ("extend-before", format!("extend scalar Stamp {directive}\n{rest}scalar Stamp\n")),
+    ];
+    let entries: [(&str, Option<ScalarCfg>); 5] = [
+        ("none", None),
+        ("single-differs", Some(ScalarCfg::Single("string".into()))),
+        ("send-receive-differs", Some(ScalarCfg::SendReceive { send: "bigint".into(), receive: "Date | number".into() })),
+        ("separate-agrees", Some(ScalarCfg::Separate { resolver_output: "Date".into(), resolver_input: "Date".into(), operation_output: "number".into(), operation_input: "Date | number".into() })),
+        ("send-receive-agrees-on-operations", Some(ScalarCfg::SendReceive { send: "Date | number".into(), receive: "number".into() })),
+    ];
+    for (k, (pl, sdl)) in placements.iter().enumerate() {
+        for (j, (en, entry)) in entries.iter().enumerate() {
+            out.push(Case {
+                sdl: sdl.clone(),
+                cfg: CfgCase { scalars: entry.iter().map(|c| ("Stamp".to_string(), c.clone())).collect(), optional: [None, Some(true), Some(false)][(k + j) % 3], runtime: false },
+                doc: "query Q($t: Stamp!, $ts: [Stamp!], $s: Span, $n: Int) { q(s: $s, t: $t) }\n".into(),
+                origin: format!("corpus:scalar-sources:directive-on-{pl}:config-{en}"),
+                model: None,
+                model_sdl: None,
+            });
+        }
+    }
     // scalar text that clashes with an input type name
     out.push(Case {
         sdl: "scalar S\ninput Range { a: Int }\ntype Query { q(s: S, r: Range): Int }\n".into(),
@@ -121,10 +151,84 @@ fn wrap_random(rng: &mut Rng, base: &str) -> String {
     t
 }
 
+/// The TypeScript type of a scalar has TWO sources: the `generate.type.scalarTypes` entry of the configuration and
+/// the `@nitrogql_ts_type` directive of the schema (what the graphql-scalars plugin emits). `gen_schema` (flag
+/// `ts_type_directive`) gives some custom scalars a directive and `gen_project_cfg` gives every custom scalar a config
+/// entry; this mixes the two sources per scalar: directive only / both with independent texts (mostly disagreeing) /
+/// both agreeing (same four texts; or agreeing on the operation side through the send/receive split) / both with the
+/// directive's operation texts swapped / both with a single text that differs from the directive's operationInput.
+/// Scalars without a directive keep their config entry (config only).
+fn mix_scalar_sources(rng: &mut Rng, schema: &SchemaModel, pc: &mut ProjectCfg) {
+    let pool = ["string", "number", "Date", "bigint", "string | number", "{ readonly raw: string }"];
+    for (n, d) in directive_scalars(&schema.doc) {
+        let Some(pos) = pc.scalars.iter().position(|(m, _)| *m == n) else {
+            continue;
+        };
+        let (d_oi, d_oo) = (CfgCase::text_for(&d, "oi"), CfgCase::text_for(&d, "oo"));
+        match rng.below(10) {
+            0 | 1 | 2 => {
+                pc.scalars.remove(pos);
+            }
+            3 => pc.scalars[pos].1 = d.clone(),
+            4 => pc.scalars[pos].1 = ScalarCfg::SendReceive { send: d_oi, receive: d_oo },
+            5 => pc.scalars[pos].1 = ScalarCfg::SendReceive { send: d_oo, receive: d_oi },
+            6 => {
+                let others: Vec<&str> = pool.iter().copied().filter(|t| *t != d_oi).collect();
+                pc.scalars[pos].1 = ScalarCfg::Single(others[rng.below(others.len())].to_string());
+            }
+            _ => {}
+        }
+    }
+}
+
+/// move the `@nitrogql_ts_type` directive of some scalar definitions to an `extend scalar N @nitrogql_ts_type(…)`
+/// item at a random place of the document (before or after the definition) — the form the graphql-scalars plugin
+/// writes; the merged meaning is the same
+fn ts_type_to_extension(rng: &mut Rng, doc: &TsDoc) -> (TsDoc, bool) {
+    let mut items = vec![];
+    let mut exts = vec![];
+    for it in &doc.items {
+        match it {
+            TsItem::TypeDef(t) if t.kind == TypeKind::Scalar && t.dirs.iter().any(|d| d.name == "nitrogql_ts_type") && rng.coin() => {
+                let mut base = t.clone();
+                let mut ext = TypeDef::new(TypeKind::Scalar, &t.name);
+                let (moved, kept): (Vec<Dir>, Vec<Dir>) = base.dirs.drain(..).partition(|d| d.name == "nitrogql_ts_type");
+                base.dirs = kept;
+                ext.dirs = moved;
+                items.push(TsItem::TypeDef(base));
+                exts.push(TsItem::TypeExt(ext));
+            }
+            other => items.push(other.clone()),
+        }
+    }
+    let moved = !exts.is_empty();
+    for e in exts {
+        let at = rng.below(items.len() + 1);
+        items.insert(at, e);
+    }
+    (TsDoc { items }, moved)
+}
+
+/// more `@nitrogql_ts_type` directives than `gen_schema` writes (there: one custom scalar in two): some of the remaining
+/// custom scalars get one too, with texts of further shapes (object type, union of primitives)
+fn more_ts_type_directives(rng: &mut Rng, schema: &mut SchemaModel) {
+    let pool = ["string", "number", "Date", "bigint", "string | number", "{ readonly raw: string }", "Date | string"];
+    for it in schema.doc.items.iter_mut() {
+        if let TsItem::TypeDef(t) = it {
+            if t.kind == TypeKind::Scalar && !t.dirs.iter().any(|d| d.name == "nitrogql_ts_type") && rng.chance(2, 5) {
+                let args = ["resolverInput", "resolverOutput", "operationInput", "operationOutput"].iter().map(|k| Arg::new(k, Val::Str(pool[rng.below(pool.len())].to_string(), P::default()))).collect();
+                t.dirs.push(Dir::new("nitrogql_ts_type", args));
+            }
+        }
+    }
+}
+
 fn generated(rng: &mut Rng, i: usize) -> Case {
-    let cfg = GenCfg { hostile_text: false, coercions: false, ..GenCfg::default() };
-    let schema = gen_schema(rng, &cfg);
-    let pc = gen_project_cfg(rng, &schema, i % 4 == 0);
+    let cfg = GenCfg { hostile_text: false, coercions: false, ts_type_directive: true, ..GenCfg::default() };
+    let mut schema = gen_schema(rng, &cfg);
+    more_ts_type_directives(rng, &mut schema);
+    let mut pc = gen_project_cfg(rng, &schema, i % 4 == 0);
+    mix_scalar_sources(rng, &schema, &mut pc);
     let (doc, origin) = if i % 2 == 0 {
         let (d, _) = gen_doc(rng, &schema, &cfg);
         (doc_text(&d), format!("generated:{i}:gen_doc"))
@@ -134,8 +238,10 @@ fn generated(rng: &mut Rng, i: usize) -> Case {
         inputs.extend(schema.types().filter(|t| matches!(t.kind, TypeKind::Scalar | TypeKind::Enum | TypeKind::Input)).map(|t| t.name.clone()));
         let n = 1 + rng.below(5);
         let mut vars = vec![];
+        let with_directive: Vec<String> = directive_scalars(&schema.doc).into_keys().collect();
         for k in 0..n {
-            let base = inputs[rng.below(inputs.len())].clone();
+            // the first variable is often of a scalar whose type also comes from the schema (directive)
+            let base = if k == 0 && !with_directive.is_empty() && rng.coin() { with_directive[rng.below(with_directive.len())].clone() } else { inputs[rng.below(inputs.len())].clone() };
             let ty = wrap_random(rng, &base);
             let default = if !ty.ends_with('!') && rng.chance(1, 5) { " = null" } else { "" };
             vars.push(format!("$v{k}: {ty}{default}"));
@@ -143,12 +249,17 @@ fn generated(rng: &mut Rng, i: usize) -> Case {
         (format!("query Crafted{i}({}) {{ __typename }}\n", vars.join(", ")), format!("generated:{i}:crafted"))
     };
     let mut origin = origin;
-    let sdl = if i % 3 == 1 {
+    let written = if i % 3 == 1 {
         origin.push_str(":extensions");
-        nvh::render::tsdoc_text(&split_into_extensions(rng, &schema))
+        split_into_extensions(rng, &schema)
     } else {
-        schema.sdl()
+        schema.doc.clone()
     };
+    let (written, moved) = ts_type_to_extension(rng, &written);
+    if moved {
+        origin.push_str(":ts_type-on-extend-scalar");
+    }
+    let sdl = nvh::render::tsdoc_text(&written);
     Case { sdl, cfg: CfgCase::from_project(&pc), doc, origin, model: Some(with_builtin_scalars(&schema.doc)), model_sdl: Some(schema.sdl()) }
 }
 
@@ -158,6 +269,26 @@ fn capitalize(s: &str) -> String {
         Some(f) => f.to_uppercase().collect::<String>() + c.as_str(),
         None => String::new(),
     }
+}
+
+/// the right-hand side of the alias a namespace of the schema declaration file exports under `name` (directly, or
+/// under a local name through `export type { local as name }`)
+fn namespace_alias<'a>(file: &'a Sexp, ns: &str, name: &str) -> Option<&'a Sexp> {
+    let body = file.args().iter().find(|s| s.head() == Some("namespace") && s.args().get(1).and_then(|n| n.as_str()) == Some(ns))?.args().get(2)?;
+    let stmts = body.as_list()?;
+    let mut local = name.to_string();
+    for s in stmts {
+        if s.head() == Some("exportlist") {
+            for pair in s.args().get(1).and_then(|p| p.as_list()).map(|p| p.to_vec()).unwrap_or_default() {
+                if let Some([l, e]) = pair.as_list().map(|p| [p.first().and_then(|x| x.as_str()), p.get(1).and_then(|x| x.as_str())]) {
+                    if e == Some(name) {
+                        local = l.unwrap_or(name).to_string();
+                    }
+                }
+            }
+        }
+    }
+    stmts.iter().find(|s| s.head() == Some("type") && s.args().get(1).and_then(|n| n.as_str()) == Some(local.as_str())).and_then(|s| s.args().get(3))
 }
 
 fn run_case(rep: &mut Report, drv: &mut Driver, case: &Case) {
@@ -222,12 +353,63 @@ fn run_case(rep: &mut Report, drv: &mut Driver, case: &Case) {
             return;
         }
     };
+    // ---- K: the scalar table. `Schema.__OperationInput.<Scalar>` of the REAL schema declaration file = the text the
+    // model's `get_scalar_types` (config entry / built-in first, `@nitrogql_ts_type` directive second) selects for the
+    // operation-input target, for every scalar definition of the real resolved document
+    let mut two_sources_differ: BTreeSet<String> = BTreeSet::new();
+    {
+        let directives = directive_scalars(&tsdoc);
+        let table = drv.one(&Sexp::call("scalar.table", vec![cfg_sexp.clone(), strip_pos(&tsdoc.to_sexp())]));
+        rep.k_cases += 1;
+        if table.head() != Some("ok") {
+            rep.fail("K", "driver", &format!("driver answers: {}", table.to_line().chars().take(200).collect::<String>()), case.to_json());
+        } else {
+            let model_oi: BTreeMap<String, String> = table.args().iter().filter_map(|r| Some((r.as_list()?.first()?.as_str()?.to_string(), r.as_list()?.get(4)?.as_str()?.to_string()))).collect();
+            for it in &tsdoc.items {
+                let TsItem::TypeDef(t) = it else {
+                    continue;
+                };
+                if t.kind != TypeKind::Scalar {
+                    continue;
+                }
+                let configured = case.cfg.scalars.iter().find(|(n, _)| *n == t.name).map(|(_, c)| c);
+                let source = match (configured, directives.get(&t.name)) {
+                    (Some(c), Some(d)) => {
+                        if CfgCase::text_for(c, "oi") == CfgCase::text_for(d, "oi") {
+                            "config-entry+directive:same-operationInput"
+                        } else {
+                            two_sources_differ.insert(t.name.clone());
+                            "config-entry+directive:different-operationInput"
+                        }
+                    }
+                    (Some(_), None) => "config-entry-only",
+                    (None, Some(_)) if BUILTIN_SCALARS.contains(&t.name.as_str()) => "built-in+directive",
+                    (None, Some(_)) => "directive-only",
+                    (None, None) => "built-in",
+                };
+                rep.count(&format!("feature:scalar-type-source:{source}"));
+                let real = namespace_alias(&schema_tree, "__OperationInput", &t.name);
+                match (model_oi.get(&t.name), real) {
+                    (Some(text), Some(real)) => {
+                        if tsparse::parse_type(text).ok().as_ref() != Some(real) {
+                            rep.fail("K", "scalar-table:operation-input", &format!("Schema.__OperationInput.{} is {} in the real schema file, the model's scalar table says {text:?} [{source}]", t.name, real.to_line()), case.to_json());
+                        }
+                    }
+                    (None, None) => {}
+                    (m, r) => rep.fail("K", "scalar-table:presence", &format!("scalar {}: model has a type: {}, real schema file declares it: {} [{source}]", t.name, m.is_some(), r.is_some()), case.to_json()),
+                }
+            }
+        }
+    }
     // reference side: the generator's abstract model when the case has one
     let ref_doc: TsDoc = case.model.clone().unwrap_or_else(|| tsdoc.clone());
     let doc_sexp = strip_pos(&ref_doc.to_sexp());
     rep.count(if case.model.is_some() { "reference:abstract-model" } else { "reference:real-resolved-document(corpus text)" });
     if case.origin.contains(":extensions") {
         rep.count("feature:schema-written-with-extensions");
+    }
+    if case.origin.contains("ts_type-on-extend-scalar") || case.origin.contains("directive-on-extend") {
+        rep.count("feature:nitrogql_ts_type-on-extend-scalar");
     }
     let tsdoc = ref_doc;
     // module specifier of the schema import
@@ -243,6 +425,10 @@ fn run_case(rep: &mut Report, drv: &mut Driver, case: &Case) {
     for c in eff.values() {
         texts.extend(CfgCase::texts_of(c));
     }
+    // the texts of the `@nitrogql_ts_type` directives also when a configuration entry overrides them: their opaque
+    // atoms (`Date`, `bigint`, …) join the value domain, so that a Variables type built from the WRONG source of a
+    // scalar's type admits a value the configured coercion rejects
+    texts.extend(dir_texts.iter().cloned());
     let texts: Vec<String> = texts.into_iter().collect();
     let empty_file = Sexp::call("tsfile", vec![]);
     let no_mods = Sexp::call("mods", vec![]);
@@ -334,6 +520,9 @@ fn run_case(rep: &mut Report, drv: &mut Driver, case: &Case) {
         if reach.iter().any(|n| degenerate_scalars.contains(n)) {
             rep.count("outside-O-domain:scalar-input-text-admits-null-or-undefined");
             continue;
+        }
+        if reach.iter().any(|n| two_sources_differ.contains(n)) {
+            rep.count("feature:variables-reach-scalar-with-config-entry-and-different-directive");
         }
         // ---- O: value domain
         let mut values: Vec<(String, J)> = base.clone();
